@@ -46,6 +46,9 @@ def compare_final(clean, final):
         if n not in have:
             v.append("object %s of the clean commit is missing after the retry" % n[:16])
             break
+    extra = sorted(set(n for n, d, m in final["cache"]) - set(n for n, d, m in clean["cache"]))
+    if extra:
+        v.append("the cache holds %d object(s) a commit that never failed does not write, e.g. %s" % (len(extra), extra[0][:16]))
     if sorted(final.get("stray", [])) != sorted(clean.get("stray", [])):
         v.append("stray file left in the cache directory (not there after a commit that never failed): %s" % sorted(final.get("stray", []))[:3])
     return v
@@ -200,6 +203,15 @@ def unc_oracle(run):
             rec = s1eval.recorded(last["snap"])
             if any(d in ("-", "") for d in rec.values()):
                 v.append(("retry-differs", "an artifact has no recorded checksum after the retry"))
+            # the cache was empty before the failed commit: a commit that never failed writes exactly the objects
+            # reachable from the recorded checksums
+            reach = set()
+            for d in rec.values():
+                reach |= s1eval.reachable(last["snap"], d)
+            extra = sorted(set(n for n, d, m in last["snap"]["cache"]) - reach)
+            if extra:
+                v.append(("retry-differs", "after the retry the cache holds %d object(s) that are not part of any recorded artifact (a commit that never "
+                                           "failed does not write them), e.g. %s" % (len(extra), extra[0][:16])))
     return v
 
 
